@@ -92,11 +92,28 @@ def run_one(sim, params):
     if sim.sample is None:
         sim.sample = info
     fmt = "%d%d" % (len(case.old) >= 255, new_len >= 255)
+    # some runs: a first attempt fails with a transient error before any command is executed, the application tries
+    # again through the same NDEF object, and the tag is pulled during that second attempt
+    retry_first = params["type"] in ("t1", "t2", "t3") and sim.chance("retry.first", 0.25)
     for k in cuts:
         sim.count("evaluations")
         with case.world(nfc) as w:
             tag = w.discover()
             ndef = tag.ndef
+            if retry_first and k > 0:
+                from dsim.w1.device import LOSE_CMD, OK
+                failing = [True]
+                w.device.fate = lambda idx, data: LOSE_CMD if failing[0] else OK
+                try:
+                    ndef.octets = new
+                    sim.probe("retry.first_attempt_unexpectedly_succeeded")
+                except nfc.tag.TagCommandError:
+                    sim.probe("retry.first_attempt_failed")
+                except Exception as e:
+                    sim.probe("writer_raised_" + type(e).__name__)
+                failing[0] = False
+                w.device.fate = None
+                sim.fault("first_attempt_lost_commands")
             if k == 0:
                 w.device.remove_tag()
             else:
